@@ -29,9 +29,8 @@ package config
 // "scope=<connection's scope>" argument that the session authorizer injects (C11). The body
 // is a single fmt.Sprintf; the clause only names its result.
 //@ func (u User) GetLocalizedScope() (res string)
-//@   unverified history variable: names the result of this call for the caller's contract
-//@   modifies ghost.scopeArg
-//@   ensures ghost.scopeArg == seqof(res)
+//@   ensures len(u.Scopes) >= 1 ==> seqof(res) == cat(seqof("scope="), seqof(u.Scopes[0]))
+//@   ensures len(u.Scopes) < 1 ==> res == "scope=no-scope-set"
 
 // C11 / C13 — localization gives the user copy its OWN one-element scope list: the copies
 // built for the other scopes (and the configuration they were copied from) are not touched.
